@@ -486,16 +486,30 @@ Qed.
 Lemma unexpected_text : err_ename "ErrUnexpectedMsg" = str "unexpected message".
 Proof. vm_compute. reflexivity. Qed.
 
-(* the client's method table implements the Session interface, signature for signature *)
-Lemma client_signatures_match :
+(* the client's method table implements the Session interface, signature for
+   signature: same parameter kinds, same variadicity, same result kinds *)
+Definition gkind_eqb (a b : gkind) : bool :=
+  match a, b with
+  | GKInt x s, GKInt y t => N.eqb x y && Bool.eqb s t
+  | GKStr, GKStr | GKBytes, GKBytes | GKStrs, GKStrs | GKQid, GKQid | GKQids, GKQids | GKDir, GKDir => true
+  | _, _ => false
+  end.
+Fixpoint gkinds_eqb (a b : list gkind) : bool :=
+  match a, b with
+  | [], [] => true
+  | x :: a', y :: b' => gkind_eqb x y && gkinds_eqb a' b'
+  | _, _ => false
+  end.
+Definition signatures_match : bool :=
   forallb (fun m => match find (fun e => String.eqb (fst (fst (fst e))) (cm_name m)) gen_session with
                     | Some (_, ps, v, rs) =>
-                        (Nat.eqb (List.length ps) (List.length (cm_params m))) && Bool.eqb v (cm_variadic m)
-                        && Nat.eqb (List.length rs) (List.length (cm_results m))
+                        gkinds_eqb ps (cm_params m) && Bool.eqb v (cm_variadic m) && gkinds_eqb rs (cm_results m)
                     | None => false
-                    end) gen_client = true
-  /\ List.length gen_client = List.length gen_session.
-Proof. split; vm_compute; reflexivity. Qed.
+                    end) gen_client
+  && Nat.eqb (List.length gen_client) (List.length gen_session).
+
+Lemma client_signatures_match : signatures_match = true.
+Proof. vm_compute. reflexivity. Qed.
 
 (* ---------------------------------------- concurrent callers: own results *)
 
